@@ -209,6 +209,15 @@ func cmdVerify(args []string) {
 			if ps.Contracts[name].Trusted {
 				continue
 			}
+			inPats := false
+			for _, pat := range pats {
+				if pat == "./..." || strings.TrimPrefix(pat, "./") == shortPkg(path) || (pat == "." && shortPkg(path) == "") {
+					inPats = true
+				}
+			}
+			if !inPats {
+				continue
+			}
 			keys = append(keys, path+"::"+name)
 		}
 	}
